@@ -480,9 +480,10 @@ class Parser:
                 mode = "update" if self.peek().up == "UPDATE" or mode == "update" else "share"
                 self.i += 2
                 if self.accept_kw("OF"):
-                    self.ident()
+                    self.lock_of = getattr(self, "lock_of", None) or []
+                    self.lock_of.append(self.ident().lower())
                     while self.accept_op(","):
-                        self.ident()
+                        self.lock_of.append(self.ident().lower())
                 self.accept_kw("NOWAIT")
                 if self.accept_kw("SKIP"):
                     self.expect_kw("LOCKED")
@@ -548,12 +549,16 @@ class Parser:
         self.order_limit(s)
         if self.accept_kw("INTO"):
             s["into"] = self.into_list()
+        self.lock_of = None
         lk = self.locking()
         if self.accept_kw("INTO"):
             s["into"] = self.into_list()
         lk = self.locking() or lk
         if lk:
             s["lock"] = lk
+            if self.lock_of:
+                s["lock_of"] = list(self.lock_of)      # FOR UPDATE / SHARE OF t1, t2: only these tables are locked (and read as current)
+        self.lock_of = None
         return s
 
     def into_list(self):
